@@ -55,8 +55,9 @@ def main():
         if confirmed:
             dst = os.path.join(VERIF, "seeded", sid)
             os.makedirs(dst, exist_ok=True)
-            shutil.copy(os.path.join(src, "patch.diff"), dst)
-            shutil.copy(os.path.join(src, "demo.py"), dst)
+            if os.path.abspath(src) != os.path.abspath(dst):     # re-check of a stored seed
+                shutil.copy(os.path.join(src, "patch.diff"), dst)
+                shutil.copy(os.path.join(src, "demo.py"), dst)
             meta_out = {"property": meta.get("property"), "summary": meta.get("summary"),
                         "needs": meta.get("needs"), "files": meta.get("files"),
                         "base_commit": sh("git -C /repo rev-parse --short HEAD").stdout.strip(),
